@@ -753,3 +753,41 @@ refactor("c04-r-sorted", "C04", RULES,
 refactor("c04-r-neg-key", "C04", RULES,
          "    return min(\n        dispatcher.available_operations(),\n        key=lambda operation: operation.position_in_job,\n    )",
          "    return max(\n        dispatcher.available_operations(),\n        key=lambda operation: -operation.position_in_job,\n    )")
+
+# ------------------------------------------------------------------ C19
+GEN = "job_shop_lib/generation/_general_instance_generator.py"
+IGEN = "job_shop_lib/generation/_instance_generator.py"
+mutant("c19-clamp-lower", "C19", "R19.b", GEN,
+       "                max_num_machines = min(num_jobs, max_num_machines)\n                min_num_machines = min(min_num_machines, max_num_machines)",
+       "                min_num_machines = min(num_jobs, max_num_machines)", "the original defect D10")
+mutant("c19-no-cap", "C19", "R19.b", GEN,
+       "                max_num_machines = min(num_jobs, max_num_machines)\n                min_num_machines = min(min_num_machines, max_num_machines)",
+       "                pass")
+mutant("c19-global-seed", "C19", "R19.c", IGEN,
+       "        self.rng = random.Random(seed)", "        self.rng = random.Random(seed)\n        if seed is not None:\n            random.seed(seed)")
+mutant("c19-one-global-draw", "C19", "R19.c", GEN,
+       "        machine_id = self.rng.choice(available_machines)", "        import random\n        machine_id = random.choice(available_machines)",
+       "seeded C19-s2 shape: one helper left on the global RNG")
+mutant("c19-rng-unseeded", "C19", "R19.c", IGEN,
+       "        self.rng = random.Random(seed)", "        self.rng = random.Random()")
+mutant("c19-counter-reset", "C19", "R19.d", IGEN,
+       "        self._current_iteration = 0\n        return self", "        self._current_iteration = 0\n        self._counter = 0\n        return self",
+       "seeded C19-s1: names restart on a second pass")
+mutant("c19-name-no-counter", "C19", "R19.d", IGEN,
+       "        return f\"{self.name_suffix}_{self._counter}\"", "        return f\"{self.name_suffix}_{self._current_iteration}\"")
+mutant("c19-next-off-by-one", "C19", "R19.e", IGEN,
+       "            and self._current_iteration >= self._iteration_limit", "            and self._current_iteration > self._iteration_limit")
+mutant("c19-iter-no-restart", "C19", "R19.e", IGEN,
+       "        self._current_iteration = 0\n        return self", "        return self")
+mutant("c19-pool-not-reset", "C19", "R19.f", GEN,
+       "            jobs.append(job)\n            available_machines = list(range(num_machines))", "            jobs.append(job)")
+mutant("c19-no-remove", "C19", "R19.f", GEN,
+       "        if not self.allow_recirculation:\n            available_machines.remove(machine_id)", "        if self.allow_recirculation:\n            available_machines.remove(machine_id)")
+mutant("c19-ops-per-job", "C19", "R19.g", GEN,
+       "            for _ in range(num_machines):\n                operation = self.create_random_operation(available_machines)",
+       "            for _ in range(len(available_machines) - 1):\n                operation = self.create_random_operation(available_machines)")
+mutant("c19-duration-range", "C19", "R19.g", GEN,
+       "        duration = self.rng.randint(*self.duration_range)", "        duration = self.rng.randint(1, self.duration_range[1])")
+refactor("c19-r-inline-cap", "C19", GEN,
+         "            num_machines = self.rng.randint(min_num_machines, max_num_machines)",
+         "            num_machines = self.rng.randint(min_num_machines, max_num_machines)\n            assert num_machines >= 0")
